@@ -20,6 +20,7 @@ import (
 	"fmt"
 	"math/big"
 	"math/rand"
+	"os"
 	"reflect"
 	"sort"
 	"strings"
@@ -510,6 +511,10 @@ func C12(ctx *core.Ctx) error {
 	}
 
 	if ctx.Replay != "" {
+		var cc c12CtxCase
+		if _, err := core.LoadReplay(ctx.Replay, &cc); err == nil && cc.Mode == "context" {
+			return c12CtxReplay(ctx, cc)
+		}
 		var c c12Case
 		if _, err := core.LoadReplay(ctx.Replay, &c); err != nil {
 			return core.Inconcl("cannot load replay: %v", err)
@@ -535,6 +540,24 @@ func C12(ctx *core.Ctx) error {
 	}
 
 	cov := core.NewCov()
+	// VERIF_C12_ONLY=context|proofs runs one half of the check (development aid; no evidence is written)
+	only := os.Getenv("VERIF_C12_ONLY")
+	// ---- protocol level (spec/ProofContext.tla replayed on real rounds), beside everything else
+	var ctxRep *c12CtxReport
+	var cwg sync.WaitGroup
+	if only != "proofs" {
+		cwg.Add(1)
+		go func() { defer cwg.Done(); ctxRep = c12RoundsContext(ctx, cov) }()
+	}
+	if only == "context" {
+		cwg.Wait()
+		if ctxRep.Inconcl != "" {
+			return core.Inconcl("%s", ctxRep.Inconcl)
+		}
+		b, _ := json.MarshalIndent(cov.Extra["context"], "", " ")
+		fmt.Printf("context part only (no evidence written): %d rows executed in %.1fs\n%s\n", ctxRep.Executed, ctxRep.Wall, b)
+		return nil
+	}
 	// ---- the model, in the background
 	var model c12TLC
 	var wg sync.WaitGroup
@@ -692,6 +715,15 @@ func C12(ctx *core.Ctx) error {
 	}
 	if shiftsTotal == 0 {
 		return core.Inconcl("no shift row could be exercised")
+	}
+
+	cwg.Wait()
+	if ctxRep != nil && ctxRep.Inconcl != "" {
+		return core.Inconcl("%s", ctxRep.Inconcl)
+	}
+	if only != "" {
+		fmt.Printf("proof-level part only (no evidence written)\n")
+		return nil
 	}
 
 	nShiftRows := 0
